@@ -1264,6 +1264,13 @@ impl ProtocolState {
     fn get_next_ack_timeout(&mut self) -> Option<u64> {
         if let Some(reverse_record) = self.operation_ack_timeouts.peek() {
             let record = &reverse_record.0;
+
+            // an operation whose follow-up packet (PUBREL) is partially encoded cannot be abandoned
+            // mid-packet; its timeout is applied as soon as that packet has been fully encoded
+            if Some(record.id) == self.current_operation {
+                return None;
+            }
+
             if record.timeout <= self.current_time {
                 return Some(record.id);
             }
@@ -1604,7 +1611,10 @@ impl ProtocolState {
         let mut next_service_time: Option<Instant> = fold_optional_timepoint_min(&None, &self.ping_timeout_timepoint);
 
         if let Some(ack_timeout) = self.operation_ack_timeouts.peek() {
-            next_service_time = fold_timepoint(&next_service_time, &ack_timeout.0.timeout);
+            // see get_next_ack_timeout: the current operation's timeout waits for its packet to finish
+            if Some(ack_timeout.0.id) != self.current_operation {
+                next_service_time = fold_timepoint(&next_service_time, &ack_timeout.0.timeout);
+            }
         }
 
         if self.pending_write_completion {
